@@ -6,6 +6,7 @@ import (
 
 	"github.com/libp2p/go-libp2p/p2p/host/eventbus"
 
+	"berty.tech/go-ipfs-log/entry/sorting"
 	"berty.tech/go-ipfs-log/identityprovider"
 	orbitdb "berty.tech/go-orbit-db"
 	"berty.tech/go-orbit-db/accesscontroller"
@@ -31,6 +32,11 @@ func DefaultOrbitDBOptions(g *protocoltypes.Group, options *orbitdb.CreateDBOpti
 		Cache:                   options.Cache,
 		EventBus:                options.EventBus,
 		Logger:                  options.Logger,
+		// every member of a group writes with the group's log identity, so the
+		// Lamport clocks of concurrent entries carry the same ID: break those
+		// ties by entry hash, which is the same on every replica, instead of
+		// by order of arrival.
+		SortFn: sorting.SortByEntryHash,
 	}
 
 	t := true
